@@ -1,7 +1,7 @@
 (* Entry points of the executable model: [dispatch O op input] for the extracted driver and for
    evaluation inside Coq. Each operation decodes its input, runs the model and encodes the result. *)
 Require Import Model.Base Model.Expr Model.Simplify Model.Split Model.Trie Model.Overlap
-               Model.LicTok Model.BoolParse Model.Licensing Model.Codec Model.History Model.Threads.
+               Model.LicTok Model.BoolParse Model.Licensing Model.Codec Model.History Model.Threads Model.Index.
 Open Scope Z_scope.
 
 Definition bad_input : data := DL [DI (-1)].
@@ -102,6 +102,18 @@ Definition e_obs (o : obs) : data :=
   | ObText s => DL [DI 4; e_str s]
   end.
 
+Definition d_ientry (d : data) : option ientry :=
+  match d with
+  | DL [k; s; o; x; dp] =>
+      match d_str k, d_str s, d_list d_str o, d_bool x, d_bool dp with
+      | Some k, Some s, Some o, Some x, Some dp =>
+          Some {| license_key := k; spdx_key := s; other_spdx := o; iexc := x; deprecated := dp |}
+      | _, _, _, _, _ => None
+      end
+  | _ => None
+  end.
+Definition e_entry (e : entry) : data := DL [e_str (ekey e); e_list e_str (ealiases e); e_bool (eexc e)].
+
 Definition d_instr (d : data) : option instr :=
   match d with
   | DI 0 => Some IRead | DI 1 => Some IAlloc | DI 2 => Some IAdd | DI 3 => Some IFinalize
@@ -200,6 +212,12 @@ Definition dispatch (O : oracle) (op : Z) (d : data) : data :=
               e_list (fun th => DL [e_nat (pc th); e_opt e_bool (result th)]) (threads g);
               e_opt e_nat (slot g); e_bool (shape_safe p)]
       | _, _ => bad_input
+      end
+  | 19, idx =>
+      match d_list d_ientry idx with
+      | Some idx => DL [e_outcome (e_list e_entry) (build_licensing O idx);
+                        e_outcome (e_list e_entry) (build_spdx_licensing O idx)]
+      | None => bad_input
       end
   | 17, ops =>
       match d_list d_hop ops with
